@@ -391,6 +391,30 @@ func (w *vWriteRun) request(req string, l22, l3, of bool) bool {
 			w.startFaultArmed, w.startFaultPlanted = true, false
 			wantErr = true
 			startFault = true
+		} else if ds.channelsPerPixel > 0 && vChance(c.R, 0.15) {
+			// the request carries a pixel map (as the RPC layer attaches the loaded one) of the right length; pixels are looked
+			// up by channel number, so the request is valid only if every number in use is within 1..pixels, otherwise it is
+			// refused (and a refused request changes nothing)
+			npix := w.nchan / ds.channelsPerPixel
+			mp := &Map{Spacing: 1, Pixels: make([]Pixel, npix), Filename: "verif.map"}
+			for i := range mp.Pixels {
+				mp.Pixels[i] = Pixel{X: i, Y: 2 * i, Name: fmt.Sprintf("px%d", i)}
+			}
+			cfg.MapInternalOnly = mp
+			covered := true
+			for _, n := range ds.chanNumbers {
+				covered = covered && n >= 1 && n <= npix
+			}
+			if covered {
+				m.active, m.paused = true, false
+				m.ljh22, m.ljh3, m.of = l22, l3, of
+				desc2 = "[with a pixel map]"
+				c.Cov("starts_with_a_pixel_map", 1)
+			} else {
+				wantErr = true
+				desc2 = "[with a pixel map that does not cover the channel numbers]"
+				c.Cov("starts_with_a_map_not_covering_the_numbers", 1)
+			}
 		} else {
 			m.active, m.paused = true, false
 			m.ljh22, m.ljh3, m.of = l22, l3, of
